@@ -7,31 +7,3 @@ Set Printing Width 100000000.
 Set Printing Depth 100000000.
 Fixpoint bs (l : list nat) : string := match l with [] => EmptyString | n :: r => String (Ascii.ascii_of_nat n) (bs r) end.
 Definition T_ (b : bool) : string := if b then "T" else "F".
-Definition t194 : pt := (mkPacket (mkPtok 37 "MetaData" 1 0 0) (Some (mkPtok 3 "}" 24 0 72)) [(DMeta (mkMetaDef (mkSpan (mkPtok 37 "MetaData" 1 0 0) (mkPtok 3 "}" 7 0 23)) (mkPtok 37 "MetaData" 1 0 0) (mkPtok 42 "M1" 1 9 1) (mkPtok 2 "{" 1 12 2) [(MIRef (mkRefMetaDecl (mkSpan (mkPtok 42 "TargetID" 2 4 3) (mkPtok 40 "," 2 21 6)) (mkPtok 42 "TargetID" 2 4 3) (mkPtok 42 "Text" 2 13 4) (Some (mkPtok 43 "``" 2 18 5)) (mkPtok 40 "," 2 21 6))); (MIDecl (mkMetaDecl (mkSpan (mkPtok 21 "uint16" 3 4 7) (mkPtok 40 "," 3 20 9)) (TyBasic (mkSpan (mkPtok 21 "uint16" 3 4 7) (mkPtok 21 "uint16" 3 4 7)) (mkBasicType (mkSpan (mkPtok 21 "uint16" 3 4 7) (mkPtok 21 "uint16" 3 4 7)) (mkPtok 21 "uint16" 3 4 7))) (mkPtok 42 "SenderID" 3 11 8) None (mkPtok 40 "," 3 20 9))); (MIDecl (mkMetaDecl (mkSpan (mkPtok 23 "uint64" 4 4 10) (mkPtok 40 "," 4 19 12)) (TyBasic (mkSpan (mkPtok 23 "uint64" 4 4 10) (mkPtok 23 "uint64" 4 4 10)) (mkBasicType (mkSpan (mkPtok 23 "uint64" 4 4 10) (mkPtok 23 "uint64" 4 4 10)) (mkPtok 23 "uint64" 4 4 10))) (mkPtok 42 "Account" 4 11 11) None (mkPtok 40 "," 4 19 12))); (MIDecl (mkMetaDecl (mkSpan (mkPtok 25 "int16" 5 4 13) (mkPtok 40 "," 5 21 16)) (TyBasic (mkSpan (mkPtok 25 "int16" 5 4 13) (mkPtok 25 "int16" 5 4 13)) (mkBasicType (mkSpan (mkPtok 25 "int16" 5 4 13) (mkPtok 25 "int16" 5 4 13)) (mkPtok 25 "int16" 5 4 13))) (mkPtok 42 "Flags" 5 10 14) (Some (mkPtok 43 (string_of_bytes [96; 230; 182; 136; 230; 129; 175; 96]%N) 5 16 15)) (mkPtok 40 "," 5 21 16))); (MIDecl (mkMetaDecl (mkSpan (mkPtok 23 "uint64" 6 4 18) (mkPtok 40 "," 6 22 21)) (TyBasic (mkSpan (mkPtok 23 "uint64" 6 4 18) (mkPtok 23 "uint64" 6 4 18)) (mkBasicType (mkSpan (mkPtok 23 "uint64" 6 4 18) (mkPtok 23 "uint64" 6 4 18)) (mkPtok 23 "uint64" 6 4 18))) (mkPtok 42 "Side" 6 11 19) (Some (mkPtok 43 "`doc`" 6 16 20)) (mkPtok 40 "," 6 22 21)))] (mkPtok 3 "}" 7 0 23))); (DOption (mkOptionDef (mkSpan (mkPtok 1 "options" 8 0 24) (mkPtok 3 "}" 11 0 33)) (mkPtok 1 "options" 8 0 24) (mkPtok 2 "{" 8 8 25) [(mkOptionDecl (mkSpan (mkPtok 42 "ArrayPrefixLenType" 9 4 26) (mkPtok 20 "u8" 9 25 28)) (mkPtok 42 "ArrayPrefixLenType" 9 4 26) (mkPtok 4 "=" 9 23 27) (VType (mkSpan (mkPtok 20 "u8" 9 25 28) (mkPtok 20 "u8" 9 25 28)) (TyBasic (mkSpan (mkPtok 20 "u8" 9 25 28) (mkPtok 20 "u8" 9 25 28)) (mkBasicType (mkSpan (mkPtok 20 "u8" 9 25 28) (mkPtok 20 "u8" 9 25 28)) (mkPtok 20 "u8" 9 25 28)))) None); (mkOptionDecl (mkSpan (mkPtok 42 "FixedStringPadFromLeft" 10 4 29) (mkPtok 41 ";" 10 34 32)) (mkPtok 42 "FixedStringPadFromLeft" 10 4 29) (mkPtok 4 "=" 10 27 30) (VTrue (mkSpan (mkPtok 10 "true" 10 29 31) (mkPtok 10 "true" 10 29 31)) (mkPtok 10 "true" 10 29 31)) (Some (mkPtok 41 ";" 10 34 32)))] (mkPtok 3 "}" 11 0 33))); (DPacket (mkPacketDef (mkSpan (mkPtok 34 "root" 13 0 34) (mkPtok 3 "}" 19 0 58)) (Some (mkPtok 34 "root" 13 0 34)) (mkPtok 35 "packet" 13 5 35) (mkPtok 42 "Ack" 13 12 36) (mkPtok 2 "{" 13 16 37) [(mkFieldWithAttr (mkSpan (mkPtok 36 "repeat" 14 4 38) (mkPtok 40 "," 14 24 41)) [] (MetaField (mkSpan (mkPtok 36 "repeat" 14 4 38) (mkPtok 40 "," 14 24 41)) (Some (mkPtok 36 "repeat" 14 4 38)) (mkMetaDecl (mkSpan (mkPtok 29 "float64" 14 11 39) (mkPtok 40 "," 14 24 41)) (TyBasic (mkSpan (mkPtok 29 "float64" 14 11 39) (mkPtok 29 "float64" 14 11 39)) (mkBasicType (mkSpan (mkPtok 29 "float64" 14 11 39) (mkPtok 29 "float64" 14 11 39)) (mkPtok 29 "float64" 14 11 39))) (mkPtok 42 "kind" 14 19 40) None (mkPtok 40 "," 14 24 41)))); (mkFieldWithAttr (mkSpan (mkPtok 42 "Side" 15 4 42) (mkPtok 40 "," 15 12 44)) [] (ObjectField (mkSpan (mkPtok 42 "Side" 15 4 42) (mkPtok 40 "," 15 12 44)) None (mkPtok 42 "Side" 15 4 42) (Some (mkPtok 42 "px" 15 9 43)) None (mkPtok 40 "," 15 12 44))); (mkFieldWithAttr (mkSpan (mkPtok 7 "@lengthOf(" 16 4 46) (mkPtok 40 "," 17 24 52)) [(FALengthOf (mkSpan (mkPtok 7 "@lengthOf(" 16 4 46) (mkPtok 6 ")" 16 20 48)) (mkLengthOf (mkSpan (mkPtok 7 "@lengthOf(" 16 4 46) (mkPtok 6 ")" 16 20 48)) (mkPtok 7 "@lengthOf(" 16 4 46) (mkPtok 42 "kind" 16 15 47) (mkPtok 6 ")" 16 20 48)))] (MetaField (mkSpan (mkPtok 21 "u16" 17 4 49) (mkPtok 40 "," 17 24 52)) None (mkMetaDecl (mkSpan (mkPtok 21 "u16" 17 4 49) (mkPtok 40 "," 17 24 52)) (TyBasic (mkSpan (mkPtok 21 "u16" 17 4 49) (mkPtok 21 "u16" 17 4 49)) (mkBasicType (mkSpan (mkPtok 21 "u16" 17 4 49) (mkPtok 21 "u16" 17 4 49)) (mkPtok 21 "u16" 17 4 49))) (mkPtok 42 "len" 17 8 50) (Some (mkPtok 43 "`two words`" 17 12 51)) (mkPtok 40 "," 17 24 52)))); (mkFieldWithAttr (mkSpan (mkPtok 16 "char[]" 18 4 54) (mkPtok 40 "," 18 21 57)) [] (MetaField (mkSpan (mkPtok 16 "char[]" 18 4 54) (mkPtok 40 "," 18 21 57)) None (mkMetaDecl (mkSpan (mkPtok 16 "char[]" 18 4 54) (mkPtok 40 "," 18 21 57)) (TyDynamic (mkSpan (mkPtok 16 "char[]" 18 4 54) (mkPtok 16 "char[]" 18 4 54)) (mkDynamicString (mkSpan (mkPtok 16 "char[]" 18 4 54) (mkPtok 16 "char[]" 18 4 54)) (mkPtok 16 "char[]" 18 4 54))) (mkPtok 42 "note" 18 11 55) (Some (mkPtok 43 (string_of_bytes [96; 230; 182; 136; 230; 129; 175; 96]%N) 18 16 56)) (mkPtok 40 "," 18 21 57))))] (mkPtok 3 "}" 19 0 58))); (DMeta (mkMetaDef (mkSpan (mkPtok 37 "MetaData" 20 0 59) (mkPtok 3 "}" 24 0 72)) (mkPtok 37 "MetaData" 20 0 59) (mkPtok 42 "Fields" 20 9 60) (mkPtok 2 "{" 20 16 61) [(MIDecl (mkMetaDecl (mkSpan (mkPtok 23 "uint64" 21 4 62) (mkPtok 40 "," 21 17 64)) (TyBasic (mkSpan (mkPtok 23 "uint64" 21 4 62) (mkPtok 23 "uint64" 21 4 62)) (mkBasicType (mkSpan (mkPtok 23 "uint64" 21 4 62) (mkPtok 23 "uint64" 21 4 62)) (mkPtok 23 "uint64" 21 4 62))) (mkPtok 42 "Price" 21 11 63) None (mkPtok 40 "," 21 17 64))); (MIDecl (mkMetaDecl (mkSpan (mkPtok 20 "u8" 22 4 65) (mkPtok 40 "," 22 22 68)) (TyBasic (mkSpan (mkPtok 20 "u8" 22 4 65) (mkPtok 20 "u8" 22 4 65)) (mkBasicType (mkSpan (mkPtok 20 "u8" 22 4 65) (mkPtok 20 "u8" 22 4 65)) (mkPtok 20 "u8" 22 4 65))) (mkPtok 42 "TargetID" 22 7 66) (Some (mkPtok 43 "`doc`" 22 16 67)) (mkPtok 40 "," 22 22 68))); (MIDecl (mkMetaDecl (mkSpan (mkPtok 15 "string" 23 4 69) (mkPtok 40 "," 23 18 71)) (TyDynamic (mkSpan (mkPtok 15 "string" 23 4 69) (mkPtok 15 "string" 23 4 69)) (mkDynamicString (mkSpan (mkPtok 15 "string" 23 4 69) (mkPtok 15 "string" 23 4 69)) (mkPtok 15 "string" 23 4 69))) (mkPtok 42 "SeqNum" 23 11 70) None (mkPtok 40 "," 23 18 71)))] (mkPtok 3 "}" 24 0 72)))]).
-Eval vm_compute in ("<<<W194_alias_short>>>" ++ sh_escaped (render (rw_alias_short t194)) "").
-Eval vm_compute in ("<<<W194_alias_long>>>" ++ sh_escaped (render (rw_alias_long t194)) "").
-Eval vm_compute in ("<<<W194_alias_long_opts>>>" ++ sh_escaped (render (rw_alias_long_opts t194)) "").
-Eval vm_compute in ("<<<W194_zchar>>>" ++ sh_escaped (render (rw_zchar t194)) "").
-Eval vm_compute in ("<<<W194_drop_default_pad>>>" ++ sh_escaped (render (rw_drop_default_pad t194)) "").
-Eval vm_compute in ("<<<W194_add_default_pad>>>" ++ sh_escaped (render (rw_add_default_pad t194)) "").
-Eval vm_compute in ("<<<W194_prefix_attr>>>" ++ sh_escaped (render (rw_prefix_attr t194)) "").
-Eval vm_compute in ("<<<W194_default_options>>>" ++ sh_escaped (render (rw_default_options t194)) "").
-Eval vm_compute in ("<<<W194_expand_keys>>>" ++ sh_escaped (render (rw_expand_keys t194)) "").
-Eval vm_compute in ("<<<W194_inline_meta>>>" ++ sh_escaped (render (rw_inline_meta t194)) "").
-Eval vm_compute in ("<<<W194_seps_all>>>" ++ sh_escaped (render (rw_seps_all t194)) "").
-Eval vm_compute in ("<<<W194_seps_none>>>" ++ sh_escaped (render (rw_seps_none t194)) "").
-Eval vm_compute in ("<<<W194_drop_docs>>>" ++ sh_escaped (render (rw_drop_docs t194)) "").
-Definition t504 : pt := (mkPacket (mkPtok 37 "MetaData" 1 0 0) (Some (mkPtok 3 "}" 1 218 73)) [(DMeta (mkMetaDef (mkSpan (mkPtok 37 "MetaData" 1 0 0) (mkPtok 3 "}" 1 41 16)) (mkPtok 37 "MetaData" 1 0 0) (mkPtok 42 "M" 1 9 1) (mkPtok 2 "{" 1 11 2) [(MIDecl (mkMetaDecl (mkSpan (mkPtok 12 "char[" 1 13 3) (mkPtok 40 "," 1 22 7)) (TyFixed (mkSpan (mkPtok 12 "char[" 1 13 3) (mkPtok 13 "]" 1 19 5)) (mkFixedString (mkSpan (mkPtok 12 "char[" 1 13 3) (mkPtok 13 "]" 1 19 5)) (mkPtok 12 "char[" 1 13 3) (mkPtok 30 "4" 1 18 4) (mkPtok 13 "]" 1 19 5))) (mkPtok 42 "S" 1 21 6) None (mkPtok 40 "," 1 22 7))); (MIDecl (mkMetaDecl (mkSpan (mkPtok 14 "zchar[" 1 24 8) (mkPtok 40 "," 1 34 12)) (TyFixed (mkSpan (mkPtok 14 "zchar[" 1 24 8) (mkPtok 13 "]" 1 31 10)) (mkFixedString (mkSpan (mkPtok 14 "zchar[" 1 24 8) (mkPtok 13 "]" 1 31 10)) (mkPtok 14 "zchar[" 1 24 8) (mkPtok 30 "6" 1 30 9) (mkPtok 13 "]" 1 31 10))) (mkPtok 42 "Z" 1 33 11) None (mkPtok 40 "," 1 34 12))); (MIRef (mkRefMetaDecl (mkSpan (mkPtok 42 "S" 1 36 13) (mkPtok 40 "," 1 39 15)) (mkPtok 42 "S" 1 36 13) (mkPtok 42 "T" 1 38 14) None (mkPtok 40 "," 1 39 15)))] (mkPtok 3 "}" 1 41 16))); (DPacket (mkPacketDef (mkSpan (mkPtok 35 "packet" 1 43 17) (mkPtok 3 "}" 1 108 43)) None (mkPtok 35 "packet" 1 43 17) (mkPtok 42 "B" 1 50 18) (mkPtok 2 "{" 1 52 19) [(mkFieldWithAttr (mkSpan (mkPtok 32 "@leftPad" 1 54 20) (mkPtok 40 "," 1 71 26)) [(FAPadding (mkSpan (mkPtok 32 "@leftPad" 1 54 20) (mkPtok 6 ")" 1 66 23)) (mkPaddingAttr (mkSpan (mkPtok 32 "@leftPad" 1 54 20) (mkPtok 6 ")" 1 66 23)) (mkPtok 32 "@leftPad" 1 54 20) (mkPtok 8 "(" 1 62 21) (Some (mkPtok 33 "'0'" 1 63 22)) (mkPtok 6 ")" 1 66 23)))] (ObjectField (mkSpan (mkPtok 42 "S" 1 68 24) (mkPtok 40 "," 1 71 26)) None (mkPtok 42 "S" 1 68 24) (Some (mkPtok 42 "a" 1 70 25)) None (mkPtok 40 "," 1 71 26))); (mkFieldWithAttr (mkSpan (mkPtok 42 "S" 1 73 27) (mkPtok 40 "," 1 76 29)) [] (ObjectField (mkSpan (mkPtok 42 "S" 1 73 27) (mkPtok 40 "," 1 76 29)) None (mkPtok 42 "S" 1 73 27) (Some (mkPtok 42 "b" 1 75 28)) None (mkPtok 40 "," 1 76 29))); (mkFieldWithAttr (mkSpan (mkPtok 42 "T" 1 78 30) (mkPtok 40 "," 1 81 32)) [] (ObjectField (mkSpan (mkPtok 42 "T" 1 78 30) (mkPtok 40 "," 1 81 32)) None (mkPtok 42 "T" 1 78 30) (Some (mkPtok 42 "c" 1 80 31)) None (mkPtok 40 "," 1 81 32))); (mkFieldWithAttr (mkSpan (mkPtok 42 "Z" 1 83 33) (mkPtok 40 "," 1 86 35)) [] (ObjectField (mkSpan (mkPtok 42 "Z" 1 83 33) (mkPtok 40 "," 1 86 35)) None (mkPtok 42 "Z" 1 83 33) (Some (mkPtok 42 "d" 1 85 34)) None (mkPtok 40 "," 1 86 35))); (mkFieldWithAttr (mkSpan (mkPtok 32 "@rightPad" 1 88 36) (mkPtok 40 "," 1 106 42)) [(FAPadding (mkSpan (mkPtok 32 "@rightPad" 1 88 36) (mkPtok 6 ")" 1 101 39)) (mkPaddingAttr (mkSpan (mkPtok 32 "@rightPad" 1 88 36) (mkPtok 6 ")" 1 101 39)) (mkPtok 32 "@rightPad" 1 88 36) (mkPtok 8 "(" 1 97 37) (Some (mkPtok 33 "' '" 1 98 38)) (mkPtok 6 ")" 1 101 39)))] (ObjectField (mkSpan (mkPtok 42 "Z" 1 103 40) (mkPtok 40 "," 1 106 42)) None (mkPtok 42 "Z" 1 103 40) (Some (mkPtok 42 "e" 1 105 41)) None (mkPtok 40 "," 1 106 42)))] (mkPtok 3 "}" 1 108 43))); (DPacket (mkPacketDef (mkSpan (mkPtok 34 "root" 1 110 44) (mkPtok 3 "}" 1 218 73)) (Some (mkPtok 34 "root" 1 110 44)) (mkPtok 35 "packet" 1 115 45) (mkPtok 42 "A" 1 122 46) (mkPtok 2 "{" 1 124 47) [(mkFieldWithAttr (mkSpan (mkPtok 21 "u16" 1 126 48) (mkPtok 40 "," 1 149 53)) [] (LengthField (mkSpan (mkPtok 21 "u16" 1 126 48) (mkPtok 40 "," 1 149 53)) (mkLengthFieldDecl (mkSpan (mkPtok 21 "u16" 1 126 48) (mkPtok 40 "," 1 149 53)) (Some (TyBasic (mkSpan (mkPtok 21 "u16" 1 126 48) (mkPtok 21 "u16" 1 126 48)) (mkBasicType (mkSpan (mkPtok 21 "u16" 1 126 48) (mkPtok 21 "u16" 1 126 48)) (mkPtok 21 "u16" 1 126 48)))) (mkPtok 42 "len" 1 130 49) (mkLengthOf (mkSpan (mkPtok 7 "@lengthOf(" 1 134 50) (mkPtok 6 ")" 1 148 52)) (mkPtok 7 "@lengthOf(" 1 134 50) (mkPtok 42 "body" 1 144 51) (mkPtok 6 ")" 1 148 52)) None (mkPtok 40 "," 1 149 53)))); (mkFieldWithAttr (mkSpan (mkPtok 20 "u8" 1 151 54) (mkPtok 40 "," 1 155 56)) [] (MetaField (mkSpan (mkPtok 20 "u8" 1 151 54) (mkPtok 40 "," 1 155 56)) None (mkMetaDecl (mkSpan (mkPtok 20 "u8" 1 151 54) (mkPtok 40 "," 1 155 56)) (TyBasic (mkSpan (mkPtok 20 "u8" 1 151 54) (mkPtok 20 "u8" 1 151 54)) (mkBasicType (mkSpan (mkPtok 20 "u8" 1 151 54) (mkPtok 20 "u8" 1 151 54)) (mkPtok 20 "u8" 1 151 54))) (mkPtok 42 "k" 1 154 55) None (mkPtok 40 "," 1 155 56)))); (mkFieldWithAttr (mkSpan (mkPtok 38 "match" 1 157 57) (mkPtok 40 "," 1 182 66)) [] (MatchField (mkSpan (mkPtok 38 "match" 1 157 57) (mkPtok 40 "," 1 182 66)) (mkMatchFieldDecl (mkSpan (mkPtok 38 "match" 1 157 57) (mkPtok 3 "}" 1 181 65)) (mkPtok 38 "match" 1 157 57) (mkPtok 42 "k" 1 163 58) (mkPtok 17 "as" 1 165 59) (mkPtok 42 "body" 1 168 60) (mkPtok 2 "{" 1 173 61) [(mkMatchPair (mkSpan (mkPtok 30 "1" 1 175 62) (mkPtok 42 "B" 1 179 64)) (MKDigits (mkPtok 30 "1" 1 175 62)) (mkPtok 39 ":" 1 177 63) (mkPtok 42 "B" 1 179 64) None)] (mkPtok 3 "}" 1 181 65)) (mkPtok 40 "," 1 182 66))); (mkFieldWithAttr (mkSpan (mkPtok 22 "u32" 1 184 67) (mkPtok 40 "," 1 216 72)) [] (CheckSumField (mkSpan (mkPtok 22 "u32" 1 184 67) (mkPtok 40 "," 1 216 72)) (mkChecksumFieldDecl (mkSpan (mkPtok 22 "u32" 1 184 67) (mkPtok 40 "," 1 216 72)) (Some (TyBasic (mkSpan (mkPtok 22 "u32" 1 184 67) (mkPtok 22 "u32" 1 184 67)) (mkBasicType (mkSpan (mkPtok 22 "u32" 1 184 67) (mkPtok 22 "u32" 1 184 67)) (mkPtok 22 "u32" 1 184 67)))) (mkPtok 42 "crc" 1 188 68) (mkCalculatedFrom (mkSpan (mkPtok 5 "@calculatedFrom(" 1 192 69) (mkPtok 6 ")" 1 215 71)) (mkPtok 5 "@calculatedFrom(" 1 192 69) (mkPtok 31 """CRC32""" 1 208 70) (mkPtok 6 ")" 1 215 71)) None (mkPtok 40 "," 1 216 72))))] (mkPtok 3 "}" 1 218 73)))]).
-Eval vm_compute in ("<<<W504_alias_short>>>" ++ sh_escaped (render (rw_alias_short t504)) "").
-Eval vm_compute in ("<<<W504_alias_long>>>" ++ sh_escaped (render (rw_alias_long t504)) "").
-Eval vm_compute in ("<<<W504_alias_long_opts>>>" ++ sh_escaped (render (rw_alias_long_opts t504)) "").
-Eval vm_compute in ("<<<W504_zchar>>>" ++ sh_escaped (render (rw_zchar t504)) "").
-Eval vm_compute in ("<<<W504_drop_default_pad>>>" ++ sh_escaped (render (rw_drop_default_pad t504)) "").
-Eval vm_compute in ("<<<W504_add_default_pad>>>" ++ sh_escaped (render (rw_add_default_pad t504)) "").
-Eval vm_compute in ("<<<W504_prefix_attr>>>" ++ sh_escaped (render (rw_prefix_attr t504)) "").
-Eval vm_compute in ("<<<W504_default_options>>>" ++ sh_escaped (render (rw_default_options t504)) "").
-Eval vm_compute in ("<<<W504_expand_keys>>>" ++ sh_escaped (render (rw_expand_keys t504)) "").
-Eval vm_compute in ("<<<W504_inline_meta>>>" ++ sh_escaped (render (rw_inline_meta t504)) "").
-Eval vm_compute in ("<<<W504_seps_all>>>" ++ sh_escaped (render (rw_seps_all t504)) "").
-Eval vm_compute in ("<<<W504_seps_none>>>" ++ sh_escaped (render (rw_seps_none t504)) "").
-Eval vm_compute in ("<<<W504_drop_docs>>>" ++ sh_escaped (render (rw_drop_docs t504)) "").
